@@ -529,7 +529,14 @@ fn gen_filter(r: &mut Rng, malformed: bool) -> Case {
             let t = r.below(8) as u8;
             let x = gen_int(r, t);
             ops.push(Opnd::Lit(Val::Int(t, x)));
-            for _ in 1..cnt {
+            if op == 9 && cnt >= 3 && r.chance(1, 2) {
+                // a member of another type first (extremes included), the exact match later
+                let u = (t + 1 + r.below(7) as u8) % 8;
+                ops.push(Opnd::Lit(if r.chance(1, 4) { gen_val(r) } else { Val::Int(u, gen_int(r, u)) }));
+                for _ in 2..cnt - 1 { let w = r.below(8) as u8; ops.push(Opnd::Lit(Val::Int(w, gen_int(r, w)))); }
+                ops.push(Opnd::Lit(Val::Int(t, x)));
+            }
+            for _ in ops.len().max(1)..cnt {
                 let u = if r.chance(2, 3) { t } else { r.below(8) as u8 };
                 let (lo, hi) = ity_range(u);
                 let y = (x + r.range(-2, 2) as i128).clamp(lo, hi);
@@ -607,6 +614,13 @@ impl Property for P {
             f(vec![el(0, vec![Opnd::Elem(9)])]),                                   // count mismatch is seen before the bad index
             f(vec![el(10, vec![Opnd::Elem(9)])]),                                  // here the bad index is seen first
             f(vec![el(9, vec![lit(i32v(1))])]),                                    // InList with nothing to look in
+            // every list member is compared with operand[0] on its own: an earlier member of another
+            // type (to which operand[0] does not convert, or converts with loss) must not spoil a later match
+            f(vec![el(9, vec![lit(Val::Str(s("x"))), lit(i32v(7)), lit(Val::Str(s("x")))])]),
+            f(vec![el(9, vec![lit(Val::Int(1, 200)), lit(Val::Int(0, 1)), lit(Val::Int(1, 200))])]),
+            f(vec![el(9, vec![lit(Val::Int(5, 4_000_000_000)), lit(Val::Int(4, 1)), lit(Val::Int(5, 4_000_000_000))])]),
+            f(vec![el(9, vec![lit(Val::Int(6, 16_777_217)), lit(Val::Float(1.0f32.to_bits())), lit(Val::Int(6, 16_777_216))])]),
+            f(vec![el(9, vec![lit(Val::Int(6, 16_777_217)), lit(Val::Float(1.0f32.to_bits())), lit(Val::Int(6, 16_777_217))])]),
             f(vec![el(9, vec![lit(i32v(1)), Opnd::Elem(9), Opnd::Attribute, lit(i32v(1))])]),       // errors inside InList are swallowed
             f(vec![el(13, vec![lit(i32v(1))])]), f(vec![el(14, vec![lit(i32v(1))])]), f(vec![el(15, vec![lit(i32v(1))])]),
             f(vec![el(12, vec![lit(i32v(1)), lit(i32v(1))])]), f(vec![el(12, vec![lit(i32v(1))])]),
